@@ -70,21 +70,31 @@ def to_octopus(
     else:
         fid = open(filename, "wt")
 
-    # Load up to ntime times at a time to optimise memory and speed
-    i0 = 0
-    i1 = ntime
-    while i1 <= dset_stacked.time.size:
-        dset = dset_stacked.isel(time=slice(i0, i1)).load()
-        i0 = i1
-        i1 += ntime
+    # Header values refer to the whole time series
+    nrecs = dset_stacked.time.size
+    times = dset_stacked.time.to_index().to_pydatetime()
+    if len(times) > 1:
+        dt = (times[1] - times[0]).total_seconds() / 3600.0
+    else:
+        dt = 0.0
+    tstart = f"{times[0]:%d-%b-%Y %H:%M:%S}"
+
+    # Load up to ntime times at a time to optimise memory and speed. The records of
+    # each site are contiguous in the file so sites are dumped one at a time if the
+    # times need to be split
+    if ntime < nrecs:
+        blocks = [
+            (slice(isite, isite + 1), i0)
+            for isite in range(dset_stacked.site.size)
+            for i0 in range(0, nrecs, ntime)
+        ]
+    else:
+        blocks = [(slice(None), 0)]
+    for site_slice, i0 in blocks:
+        dset = dset_stacked.isel(site=site_slice, time=slice(i0, i0 + ntime)).load()
 
         # Time arrays
         times = dset.time.to_index().to_pydatetime()
-        if len(times) > 1:
-            dt = (times[1] - times[0]).total_seconds() / 3600.0
-        else:
-            dt = 0.0
-        tstart = f"{times[0]:%d-%b-%Y %H:%M:%S}"
         ym = [f"{time:%Y%m}" for time in times]
         dhm = [f"'{time:%d%H%M}" for time in times]
         times = [f"{time:%Y%m%d_%Hz}" for time in times]
@@ -93,7 +103,6 @@ def to_octopus(
         freqs = dset.freq.values
         nfreq = dset.freq.size
         ndir = dset.dir.size
-        ntime = dset.time.size
 
         # Parameters
         stats = ["hs", "tm01", "dm"]
@@ -152,13 +161,14 @@ def to_octopus(
             dsite = {v: dset_dict[v][:, isite] for v in data_vars}
 
             # General header
-            fid.write(f"Forecast valid for {tstart}\n")
-            fid.write(f"nfreqs,{nfreq:d}\n")
-            fid.write(f"ndir,{ndir:d}\n")
-            fid.write(f"nrecs,{ntime:d}\n")
-            fid.write(f"Latitude,{lat:0.6f}\n")
-            fid.write(f"Longitude,{lon:0.6f}\n")
-            fid.write(f"Depth,{dsite[attrs.DEPNAME][0]:0.2f}\n\n")
+            if i0 == 0:
+                fid.write(f"Forecast valid for {tstart}\n")
+                fid.write(f"nfreqs,{nfreq:d}\n")
+                fid.write(f"ndir,{ndir:d}\n")
+                fid.write(f"nrecs,{nrecs:d}\n")
+                fid.write(f"Latitude,{lat:0.6f}\n")
+                fid.write(f"Longitude,{lon:0.6f}\n")
+                fid.write(f"Depth,{dsite[attrs.DEPNAME][0]:0.2f}\n\n")
 
             # Dump each timestep
             for itime, time in enumerate(times):
@@ -195,7 +205,7 @@ def to_octopus(
                         ds["hs"],
                         ds["dpm"],
                         ds["dspr"],
-                        itime * dt,
+                        (i0 + itime) * dt,
                     )
                 )
 
